@@ -33,6 +33,9 @@ type ProgCase struct {
 	// NoLogDir: the configuration names no log directory (as the configuration file shipped with the program
 	// does not); the logs then belong in the program's working directory.
 	NoLogDir bool `json:"no_log_directory_configured"`
+	// SharedConfig: the configuration file also carries the keys the project's other programs use (one file
+	// for the whole installation, in the style of the ntrip.json shipped with the program).
+	SharedConfig bool `json:"config_shared_with_other_programs"`
 }
 
 var progNo int
@@ -60,6 +63,14 @@ func checkProgram(c ProgCase, o *stats.Obs) error {
 		delete(cfgMap, "log_directory")
 		logs = dir // the working directory of the program
 		o.Class("no-log-directory-configured")
+	}
+	if c.SharedConfig {
+		for k, v := range map[string]interface{}{"input": []string{"/dev/ttyACM0", "/dev/ttyACM1"}, "caster_host_name": "caster.example", "caster_port": 2101,
+			"caster_username": "u", "caster_password": "p", "timeout_on_EOF_milliseconds": 1, "sleeptime_on_EOF_milliseconds": 2,
+			"message_log_directory": "somewhere/else", "wait_time_on_connection_failure_millis": 5} {
+			cfgMap[k] = v
+		}
+		o.Class("config-shared-with-other-programs")
 	}
 	cfgJSON, _ := json.Marshal(cfgMap)
 	cfgFile := filepath.Join(dir, "filter.json")
@@ -224,6 +235,7 @@ func genProgram(t *rapid.T) ProgCase {
 	c.Record = rapid.Bool().Draw(t, "record")
 	c.Stdin = rapid.SampledFrom([]string{"file", "file", "pipe", "pipe", "dir", "tcp-reset", "tcp-reset"}).Draw(t, "stdin")
 	c.NoLogDir = rapid.IntRange(0, 3).Draw(t, "noLogDir") == 1
+	c.SharedConfig = rapid.IntRange(0, 2).Draw(t, "sharedConfig") == 1
 	n := rapid.IntRange(0, 3).Draw(t, "nChunks")
 	for i := 0; i < n; i++ {
 		c.Chunks = append(c.Chunks, rapid.SampledFrom([]int{1, 3, 16, 4096}).Draw(t, "chunk"))
